@@ -174,7 +174,7 @@ def run_sequence(ops, case):
             if full[0] != 'value':
                 continue
             try:
-                g = p.list_names(src)
+                g = iter(p.list_names(src))
                 taken = []
                 for _ in range(k):
                     try:
